@@ -770,12 +770,21 @@ class Hugr(Mapping[Node, NodeData], Generic[OpVarCov]):
             )
             assert n.idx == idx, "Nodes should be added contiguously"
 
+        def get_offset(node: Node, offset: int | None, d: Direction) -> PortOffset:
+            # A missing offset denotes the first non-dataflow port: the
+            # state-order port of a dataflow node. So does the offset just past
+            # the value and static ports of its signature (see _constrain_offset).
+            n_ports = hugr._num_dataflow_ports(node, d)
+            if n_ports is None:
+                return 0 if offset is None else offset
+            return -1 if offset is None or offset == n_ports else offset
+
         for (src_node, src_offset), (dst_node, dst_offset) in serial.edges:
-            if src_offset is None or dst_offset is None:
-                continue
+            src = Node(src_node, _metadata=get_meta(src_node))
+            dst = Node(dst_node, _metadata=get_meta(dst_node))
             hugr.add_link(
-                Node(src_node, _metadata=get_meta(src_node)).out(src_offset),
-                Node(dst_node, _metadata=get_meta(dst_node)).inp(dst_offset),
+                src.out(get_offset(src, src_offset, Direction.OUTGOING)),
+                dst.inp(get_offset(dst, dst_offset, Direction.INCOMING)),
             )
 
         return hugr
